@@ -25,6 +25,15 @@ IT, RN, CM = "render/_iterator.py", "renderable/_renderable.py", "image/common.p
 CONTROL = ("seek", "set_frame_duration", "set_padding", "set_render_args", "set_render_size")
 
 
+def _nowalrus(e):
+    """`(x := v)` -> v"""
+    class T(ast.NodeTransformer):
+        def visit_NamedExpr(self, n):
+            return self.visit(n.value)
+    from tiv.astutil import clone
+    return T().visit(clone(e))
+
+
 def iterate_facts(ck, m):
     """The frame generator with its locals renamed to the roles the rules are written with (tiv.roles): frame, cache, frame_no,
     cache_entry, frame_details, renderable, renderable_data."""
@@ -132,11 +141,9 @@ def run(ck, m):
     stored = [norm(e).replace("renderable_data.", "data.") for e in store.value.elts[1:]] if store is not None else None
     ck.ob("R1", store or itf, stored == compared, f"details stored with a frame {stored} differ from the details compared {compared}", stmt="stored details == compared details")
     ck.ob("R1", store or itf, store is not None and norm(store.targets[0].slice) == "frame_no" and rc.lineno < store.lineno, "the frame must be stored under its own frame number after the render", stmt="cache[frame_no] stored after render")
-    ent = next((n for n in body_walk(itf) if isinstance(n, (ast.NamedExpr, ast.Assign)) and norm(n.value) == "cache[frame_no]"), None)
-    ck.ob("R1", enclosing_stmt(ent) if ent is not None else itf, ent is not None, "the cached entry must be looked up under the current frame number (cache[frame_no])", stmt="cache[frame_no] looked up")
-    ev = norm(ent.target if isinstance(ent, ast.NamedExpr) else ent.targets[0]) if ent is not None else "?"
     det = next((s for s in body_walk(itf) if isinstance(s, ast.Assign) and norm(s.targets[0]) == "frame_details"), None)
-    ck.ob("R1", det or itf, det is not None and norm(det.value) == f"{ev}[1:]", "frame_details must be everything stored after the frame in the looked-up entry", stmt="frame_details = <entry>[1:]")
+    ck.ob("R1", det or itf, det is not None and norm(_nowalrus(trace(itf, det.value, keep=("cache", "frame_no")))) == "cache[frame_no][1:]",
+          "frame_details must be everything stored after the frame in the entry looked up under the current frame number (cache[frame_no][1:])", stmt="frame_details = cache[frame_no][1:]")
     fno = [st for t, st in stores_in(ast.Module(body=itf.body, type_ignores=[])) if isinstance(t, ast.Name) and t.id == "frame_no"]
     ys = [s for s in itf.body if isinstance(s, ast.Expr) and isinstance(s.value, ast.Yield)]
     first = min(fno, key=lambda s: s.lineno) if fno else None
@@ -165,21 +172,21 @@ def run(ck, m):
     an = m.get(RN, "Renderable._animate_")
     call = next((c for c in body_walk(an) if isinstance(c, ast.Call) and (call_name(c) or "").endswith("_from_render_data_")), None)
     ck.need(call is not None and len(call.args) >= 6, "_animate_: RenderIterator._from_render_data_(...) call not recognised")
-    ca = call.args[5]
-    verdict = None
-    if isinstance(ca, ast.IfExp):
-        if norm(ca.body) == "False" and norm(ca.orelse) == "cache":
-            disable = norm(ca.test)
-        elif norm(ca.orelse) == "False" and norm(ca.body) == "cache":
-            disable = "not (" + norm(ca.test) + ")"
-        else:
-            disable = None
-        if disable is not None:
-            verdict = disable in ("loops == 1", "not (loops != 1)", "1 == loops")
-    ck.expect(verdict is not None, f"_animate_: cache argument `{norm(ca)}` not in the recognised `False if <cond> else cache` form")
+    ca = trace(an, call.args[5], keep=("loops", "cache"))
+    from tiv.absdom import EvUnk, ev
+    verdict, wit = True, None
+    try:
+        for lp in (-1, 1, 2, 5):
+            got = ev(ca, {"loops": lp, "cache": "CACHE"})
+            want_ = False if lp == 1 else "CACHE"
+            if got != want_ and wit is None:
+                verdict, wit = False, (lp, got)
+    except EvUnk as e:
+        verdict = None
+        ck.expect(False, f"_animate_: cache argument `{norm(ca)[:80]}` cannot be evaluated on the abstract domain ({e})")
     if verdict is not None:
-        ck.ob("R3", enclosing_stmt(call), verdict, f"_animate_ must disable caching exactly when loops == 1 (frames are never revisited); found `{norm(ca)}` - with infinite (negative) "
-              f"or multiple loops every frame would be re-rendered on every loop, or a single pass would fill a useless cache", stmt="_animate_: cache disabled iff loops == 1")
+        ck.ob("R3", enclosing_stmt(call), verdict, f"_animate_ must disable caching exactly when loops == 1 (frames are never revisited); found `{norm(ca)[:80]}`" + (f" - for loops={wit[0]} it passes {wit[1]!r}" if wit else "")
+              + " - with infinite (negative) or multiple loops every frame would be re-rendered on every loop, or a single pass would fill a useless cache", stmt="_animate_: cache disabled iff loops == 1")
     dr = m.get(RN, "Renderable.draw")
     ck.ob("R3", dr, any(isinstance(c, ast.Call) and (call_name(c) or "").endswith("_animate_") and len(c.args) >= 5 and norm(c.args[4]) == "cache" for c in body_walk(dr)),
           "draw() must hand its cache argument to _animate_ unchanged", stmt="draw: passes cache")
@@ -188,7 +195,7 @@ def run(ck, m):
     gs = [norm(t) for t, b in guards(rc) if b]
     ck.ob("R4", enclosing_stmt(rc), any("not frame or frame_details !=" in g_ for g_ in gs),
           f"_render_ is called outside the miss condition (guards: {gs}): a cached frame whose settings are unchanged would be rendered again", stmt="_iterate: _render_ only on a miss")
-    fr = next((s for s in body_walk(itf) if isinstance(s, ast.Assign) and norm(s.targets[0]) == "frame" and "cache[frame_no]" in norm(s.value)), None)
+    fr = next((s for s in body_walk(itf) if isinstance(s, ast.Assign) and norm(s.targets[0]) == "frame" and norm(_nowalrus(trace(itf, s.value, keep=("cache", "frame_no")))) == "cache[frame_no][0]"), None)
     els = next((s for s in body_walk(itf) if isinstance(s, ast.If) and norm(s.test) == "cache" and s.orelse and norm(s.orelse[0]) == "frame = None"), None)
     ck.ob("R4", els or itf, fr is not None and els is not None, "without a cache the frame must start as None (forcing a render); with one it comes from cache[frame_no]", stmt="_iterate: frame = cached entry or None")
 
@@ -204,18 +211,22 @@ def run(ck, m):
         ck.ob("R5", s, ok and after, f"a cache store must record the frame with hash(image.rendered_size) evaluated now (after the render); found `{short(v, 60)}` - recording a stale "
               "hash makes a frame rendered at another size look valid when the size is switched back", stmt=f"ImageIterator._animate: {short(s, 70)}")
     cmp5 = [c for c in body_walk(ia) if isinstance(c, ast.Compare) and "size_hash" in norm(c)]
-    ck.ob("R5", ia, len(cmp5) == 1 and norm(cmp5[0]) == "hash(image.rendered_size) != size_hash", "phase two must compare a fresh hash(image.rendered_size) with the stored one", stmt="ImageIterator._animate: fresh hash compared")
+    ck.ob("R5", ia, len(cmp5) == 1 and same_bool(None, cmp5[0], "hash(image.rendered_size) != size_hash"), "phase two must compare a fresh hash(image.rendered_size) with the stored one", stmt="ImageIterator._animate: fresh hash compared")
     if cmp5:
         iff = enclosing_stmt(cmp5[0])
         ck.ob("R5", iff, isinstance(iff, ast.If) and any(isinstance(c, ast.Call) and norm(c.func) == "image._render_image" for s_ in iff.body for c in ast.walk(s_))
               and any(s_ in st5 for s_ in iff.body), "a size mismatch must re-render and re-store", stmt="ImageIterator._animate: mismatch re-renders and re-stores")
     rb = [norm(t) for t, st in stores_in(ast.Module(body=ia.body, type_ignores=[])) if isinstance(t, ast.Name) and t.id in ("alpha", "fmt", "style_args")]
     ck.ob("R5", ia, not rb, f"{rb} rebound inside the generator: cached frames would no longer correspond to one set of render inputs", stmt="ImageIterator._animate: alpha/fmt/style_args never rebound")
-    sh = next((s for s in body_walk(ia) if isinstance(s, ast.Assign) and norm(s.targets[0]) == "(frame, size_hash)"), None)
-    ck.ob("R5", sh or ia, sh is not None and norm(sh.value) == "cache[n]", "phase two must read (frame, size_hash) from cache[n]", stmt="ImageIterator._animate: reads cache[n]")
+    okread = False
+    if len(cmp5) == 1:
+        other = [o for o in [cmp5[0].left] + cmp5[0].comparators if not (isinstance(o, ast.Call) and norm(o.func) == "hash")]
+        fr_t = trace(ia, ast.Name(id="frame", ctx=ast.Load()), use=cmp5[0], keep=("cache", "n"))
+        okread = len(other) == 1 and norm(trace(ia, other[0], keep=("cache", "n"))) == "cache[n][1]" and norm(fr_t) == "cache[n][0]"
+    ck.ob("R5", cmp5[0] if cmp5 else ia, okread, "phase two must read (frame, size_hash) from cache[n]", stmt="ImageIterator._animate: reads cache[n]")
     ii = m.get(CM, "ImageIterator.__init__")
     cs = next((st for t, st in stores_in(ast.Module(body=ii.body, type_ignores=[])) if norm(t) == "self._cached"), None)
-    ck.ob("R5", cs or ii, cs is not None and norm(cs.value) == "repeat != 1 and (cached if isinstance(cached, bool) else image.n_frames <= cached)",
+    ck.ob("R5", cs or ii, cs is not None and same_bool(ii, cs.value, "repeat != 1 and (cached if isinstance(cached, bool) else image.n_frames <= cached)"),
           "ImageIterator._cached must be: repeat != 1 and (cached if bool else n_frames <= cached)", stmt="ImageIterator.__init__: _cached decision")
 
 
